@@ -38,6 +38,28 @@ class Ambient:
         return [self.kind, self.value]
 
 
+IMPORT_SETTINGS = (("dps", 5), ("prec", 20), ("dps", 8), ("prec", 30), ("dps", 3), ("prec", 31), ("dps", 10))
+
+
+def reload_ebb_calc(setting=None):
+    """(Re)import plotink.ebb_calc while the caller's mpmath precision is `setting` (None: the
+    mpmath default), then put the default precision back - 'the answer does not depend on the
+    caller's ambient arbitrary-precision settings' includes the settings in force when the module
+    happens to be imported. Contracts must be re-installed by the caller afterwards."""
+    import importlib
+    import mpmath
+    from plotink import ebb_calc
+    mpmath.mp.dps = 15
+    if setting is not None:
+        if setting[0] == "dps":
+            mpmath.mp.dps = setting[1]
+        else:
+            mpmath.mp.prec = setting[1]
+    importlib.reload(ebb_calc)
+    mpmath.mp.dps = 15
+    return ebb_calc
+
+
 def pick_ambient(rng):
     return Ambient(*rng.choice(AMBIENT))
 
